@@ -54,14 +54,14 @@ ASSUMPTIONS = [
     'and independent of the order of the table',
     'values compared at rtol 1e-9 / atol 1e-11 (no normal CDF in the generated formulas); permutation partners at rtol 1e-10',
 ]
-MIN_DISTINCT = {'quick': 200, 'thorough': 5000}
+MIN_DISTINCT = {'quick': 200, 'thorough': 2500}
 CASE_TIMEOUT = 180
 
-N_RANDOM = {'quick': 340, 'thorough': 8000}
-N_MC = {'quick': 40, 'thorough': 800}
-N_REMOVE = {'quick': 40, 'thorough': 800}
-N_OUTSIDE = {'quick': 16, 'thorough': 200}
-N_NONCONTIG = {'quick': 20, 'thorough': 300}
+N_RANDOM = {'quick': 340, 'thorough': 4000}
+N_MC = {'quick': 40, 'thorough': 400}
+N_REMOVE = {'quick': 40, 'thorough': 400}
+N_OUTSIDE = {'quick': 16, 'thorough': 100}
+N_NONCONTIG = {'quick': 20, 'thorough': 150}
 N_DIRECTED_OUTSIDE = 4
 
 RTOL, ATOL = 1e-9, 1e-11
